@@ -7,6 +7,15 @@ CHECKS = {
  "C01": dict(section="6/C01", technique=TLA + "spec->code replay of exact VI/PI reference machines and exact-oracle comparison, plus a TLC judge pass evaluating the returned policies exactly",
    text="TLC explores the VIvec/VIdict/PI reference machines of spec/C01_Planners.tla on every generated instance (design invariants: residual bound, upper bound, masked zero, PI optimal) and emits the exact optimal values, action values and the machines' exact iterates; the real ValueIteration (both versions) and PolicyIteration.batch_plan_on run on msdm objects built from the same instances in six representations and every clause of the statement is compared; returned policies go back to TLC for exact evaluation.",
    note="Small-scope: <=3 non-absorbing + <=2 absorbing states, <=3 actions, probabilities over 2 or 4, discounts 1/2, 3/4, 9/10, 1. Trusted: TLC's evaluator, the Python projection of msdm results; the TLA+ oracle is cross-checked against an independent Fraction implementation."),
+ "C06": dict(section="6/C06", technique=TLA + "spec->code replay: TLC runs the reachability / array-building / round-trip machine of spec/C06_Views.tla over every instance and emits keyed views that are compared cell by cell with msdm's arrays, tables and wrappers",
+   text="TLC explores the reachable_states search (every pop order, every max_states cut-off), list construction, row filling, derived vectors and the from_matrices round trip for every generated instance, checks least-fixpoint / agreement / round-trip invariants, and emits the expected views; msdm objects in several representations (subclass, quick constructors with callables and constants, from_matrices) are projected through their own state/action lists and compared exactly; planning results of original and rebuilt objects are compared with the exact optimum.",
+   note="Small-scope instances (<=5 states, <=3 actions) with mixed hashable labels; explicit lists are full state sets in shuffled order. Trusted: TLC's evaluator, the projection code; oracle cross-checked against independent Python."),
+ "C07": dict(section="6/C07", technique=TLA + "spec->code replay of every action/observation history and belief-MDP path of spec/C07_Belief.tla into state_estimator, state_estimator_vec, predictive_observation_*, BeliefMDP and next_agentstate",
+   text="TLC explores all action/observation histories (incl. zero-probability observations) and belief-MDP paths to depth 2-4 from several initial beliefs of every generated POMDP with the Bayes filter on unnormalised integer weights, checks Bayes / normalisation / mean-is-prediction / absorption invariants, and emits the exact posterior, predictive distribution, belief-MDP row, reward and absorption at every node; the driver replays every node through the real functions and compares each value.",
+   note="POMDPs with 2-4 states, 1-3 actions, 1-3 observations, denominators 2-4, every action available in every state. Trusted: TLC's evaluator, projection code; every 10th node recomputed by an independent Fraction filter."),
+ "C10": dict(section="6/C10", technique=TLA + "trace validation: listener traces of the four TD learners are validated event by event against the update-rule machine of spec/C10_TD.tla, plus exhaustive MC of all experience histories for boundedness",
+   text="TLC (MC) explores every experience history to depth 8-9 of small proper MDPs for all four learners with the boundedness / absorbing-zero invariants; (trace mode) each recorded (s,a,r,ns,na) event of real training runs must be an enabled Step with the MDP's transition and reward, the written entry must equal the rule applied to the pre-state within the derived rounding bound, and Finish judges the returned Q-table (equals the fold) and policy (uniform over maximal-Q actions at visited states, all available actions elsewhere).",
+   note="Fixed point 1/65536 with error bound n units after n updates (non-expansion for step sizes in [0,1]); expected SARSA with temperature>0 only range-checked (counted); trainings longer than 120 steps validated as a prefix. Trusted: TLC, the recorder attached through the repository's TDLearningEventListener."),
 }
 NOT_APPLICABLE = {
  "C19": "soft Bellman fixed point needs exp/log over reals; TLA+/TLC has bounded integers only (DESIGN.md section 10)",
